@@ -38,6 +38,13 @@ namespace xsimd
         template <class A, class T, class = typename std::enable_if<std::is_integral<T>::value, void>::type>
         XSIMD_INLINE T hadd(batch<T, A> const& self, requires_arch<generic>) noexcept;
 
+        namespace detail
+        {
+            // transposes a matrix of batch<T, A> through the layout-compatible element type U (defined in xsimd_generic_memory.hpp)
+            template <class U, class A, class T>
+            XSIMD_INLINE void transpose_as(batch<T, A>* matrix_begin, batch<T, A>* matrix_end, A) noexcept;
+        }
+
     }
 }
 
